@@ -106,6 +106,11 @@ def gen_plus(tier, rng):
                 yield "plus %s %d" % (hx(t), d)
         for t in ts[::61]:
             yield "plus %s %d" % (hx(to12(t)), rng.randrange(-3000, 3000))
+        for t in ts[::5]:
+            # 12-hour notation: sums landing on and around midnight, noon and the ends of the window
+            o = off_of(hx(t))
+            for target in (-1441, -1440, -1439, -1, 0, 1, 719, 720, 721, 1439, 1440, 1441, 2879, 2880):
+                yield "plus %s %d" % (hx(to12(t)), target - o)
         for d in (I64, -I64, I64 - 1439, I64 - 1440, -I64 + 1440, -I64 + 1439, I64 // 2):
             for t in ("0:00", "<0:00", "23:59>", "12:00"):
                 yield "plus %s %d" % (hx(t), d)
@@ -113,6 +118,11 @@ def gen_plus(tier, rng):
         for k, t in enumerate(ts):
             for d in range(-2881 + k % 3, 2882, 3):
                 yield "plus %s %d" % (hx(t), d)
+            o = off_of(hx(t))
+            for target in (-1441, -1440, -1439, -1, 0, 1, 719, 720, 721, 1439, 1440, 1441, 2879, 2880):
+                yield "plus %s %d" % (hx(to12(t)), target - o)
+            for d in range(-2881 + k % 7, 2882, 7):
+                yield "plus %s %d" % (hx(to12(t)), d)
 
 def gen_ranges(tier, rng):
     ts = list(all_times())
